@@ -107,10 +107,15 @@ Definition on_unlogged (s : state) (x : op) : bool :=
   | Clone r _ | Enter r _ | ScopeBegin r | Record r _ | FollowsFrom r _ | Drop r | Entered r | ExitOwned r
   | Instrument r _ _ | PollBegin r | IntoInner r | Query r _ | WithCollector r _ | InnerAccess r _ | CloneFut r _ =>
       unlogged (val_of d r)
-  | CloneDrop r _ => unlogged (val_of d r)
+  | CloneDrop r _ | PDrop r => unlogged (val_of d r)
+  | ScopeEndL _ ls | PollEndL _ ls =>
+      match drops o (fst x) ls with
+      | Some (_, o') => match top_frame o' (fst x) with Some e => unlogged (val_of d (e_holder e)) | None => false end
+      | None => false
+      end && forallb (fun n => unlogged (val_of d n)) ls
   | SpanMutSwap f n | CloneFrom f n _ => unlogged (val_of d f) && unlogged (val_of d n)
   | DropGuard g => match find_guard o g with Some e => unlogged (val_of d (e_holder e)) | None => false end
   | ScopeEnd _ | PollEnd _ =>
       match top_frame o (fst x) with Some e => unlogged (val_of d (e_holder e)) | None => false end
-  | New _ _ _ | Current _ | OrCurrent _ | SetDefault _ | CloseScope => false
+  | New _ _ _ | Current _ | OrCurrent _ | InstrumentCurrent _ _ | SetDefault _ | CloseScope => false
   end.
